@@ -41,6 +41,44 @@ static inline int spec_mp_int_decode(const uint8_t* p, size_t avail, int* is_sig
     else *s = n == 1 ? (int64_t)(int8_t)v : n == 2 ? (int64_t)(int16_t)v : n == 4 ? (int64_t)(int32_t)v : (int64_t)v;
     return 1 + n;
 }
+static inline int spec_mp_is_int_type(uint8_t t) { return t <= 0x7f || t >= 0xe0 || (t >= 0xcc && t <= 0xd3); }
+/* declared byte length of a str item (fixstr 101xxxxx, str 8 0xd9, str 16 0xda, str 32 0xdb): -2 = not a str item, -1 = length truncated */
+static inline int64_t spec_mp_len_field(const uint8_t* p, size_t avail, int n)
+{
+    if (avail < (size_t)(1 + n)) return -1;
+    uint64_t v = 0; for (int i = 0; i < n; ++i) v = (v << 8) | p[1 + i];
+    return (int64_t)v;
+}
+static inline int64_t spec_mp_str_len(const uint8_t* p, size_t avail)
+{
+    if (avail < 1) return -2;
+    uint8_t t = p[0];
+    if (t >= 0xa0 && t <= 0xbf) return t & 0x1f;
+    if (t == 0xd9) return spec_mp_len_field(p, avail, 1) < 0 ? -2 : spec_mp_len_field(p, avail, 1);
+    if (t == 0xda) return spec_mp_len_field(p, avail, 2) < 0 ? -2 : spec_mp_len_field(p, avail, 2);
+    if (t == 0xdb) return spec_mp_len_field(p, avail, 4) < 0 ? -2 : spec_mp_len_field(p, avail, 4);
+    return -2;
+}
+static inline int64_t spec_mp_bin_len(const uint8_t* p, size_t avail)
+{
+    if (avail < 1) return -2;
+    uint8_t t = p[0];
+    if (t == 0xc4) return spec_mp_len_field(p, avail, 1) < 0 ? -2 : spec_mp_len_field(p, avail, 1);
+    if (t == 0xc5) return spec_mp_len_field(p, avail, 2) < 0 ? -2 : spec_mp_len_field(p, avail, 2);
+    if (t == 0xc6) return spec_mp_len_field(p, avail, 4) < 0 ? -2 : spec_mp_len_field(p, avail, 4);
+    return -2;
+}
+/* number of elements announced by a container type byte (already consumed) and the following length bytes p[0..avail):
+ * fixarray/fixmap: low 4 bits; array 16 / map 16: 2 bytes; array 32 / map 32: 4 bytes; -1 = truncated, -2 = not a container type */
+static inline int64_t spec_mp_container_len(uint8_t type, const uint8_t* p, size_t avail)
+{
+    if (type >= 0x80 && type <= 0x9f) return type & 0x0f;
+    int n = (type == 0xdc || type == 0xde) ? 2 : (type == 0xdd || type == 0xdf) ? 4 : 0;
+    if (!n) return -2;
+    if (avail < (size_t)n) return -1;
+    uint64_t v = 0; for (int i = 0; i < n; ++i) v = (v << 8) | p[i];
+    return (int64_t)v;
+}
 /* str format family header: fixstr 101xxxxx (<=31) | str 8 0xd9 | str 16 0xda | str 32 0xdb ; lengths above 2^32-1 are not representable */
 static inline int spec_mp_str_head(uint64_t len, uint8_t out[5])
 {
